@@ -245,6 +245,9 @@ def run_check(mod, tier, seed, workers=None):
         reported += 1
         exit_code = max(exit_code, 1)
     n_new_keys = len(seen_new_keys)
+    if os.environ.get('VERIF_KEYS'):
+        for k in sorted(seen_new_keys):
+            print('NEWKEY', k)
 
     wall = time.time() - t0
     uni = mod.universe(tier) if hasattr(mod, 'universe') else {}
